@@ -17,7 +17,7 @@ CLAIMED = {
         text="Row-major bijection onto [0,size), in-bounds, and the aliasing theorems for partial-index views, first-axis slices, reshape "
              "(incl. the inferred -1) and index-gather are proved in Lean 4 for every rank and shape about a model of dims.h/tensor.h; the model "
              "is tied to the headers by an exhaustive-small + random correspondence run with an independent naive-indexing oracle. integral / "
-             "remove_if / stack / storage conversions are covered by the correspondence and the oracle only.",
+             "the summed-area table = naive prefix sums for every rank, remove_if's two-pointer loop = filter, the lexicographic-order = offset-order law and the matrix / vector stack placement are proved too (33 theorems); storage conversions are covered by the correspondence and the oracle only.",
         note=NOTE_COMMON + "Eigen maps and storage conversions are observed only through data()/size()/operator(); memory safety by the ASan flavour of the thorough tier (testing)."),
     "C20": dict(
         category="proof", technique=TECH_GEN, design="DESIGN.md §4 C20",
@@ -89,6 +89,15 @@ CLAIMED = {
              "discrete_distribution as explicit hypothesis), gboost sampler modes, and ball points lie inside the ball (15 theorems). Exact correspondence with the implementation given the "
              "permutations / draws reproduced with the same standard library; exhaustive n x folds x seeds grid; independent set-structure oracle.",
         note=NOTE_COMMON + "std::shuffle / uniform / discrete / normal distributions are oracles (their outputs are inputs of the model); uniformity of the draws is not claimed."),
+    "C19": dict(
+        category="proof", technique=TECH_GEN, design="DESIGN.md §4 C19",
+        text="The domain guards check / update(range) / update(pair) / update(enum) are RE-TRANSLATED statement by statement from src/parameter.cpp on every run and every "
+             "registered parameter of every id of the 11 factories is dumped into a Lean table; over these it is proved that the guards accept exactly the declared domain, that any "
+             "history of assignments (ints, doubles as exact IEEE values incl. NaN / inf / ulp neighbours, pairs, strings through a model of stoll / strtod, enums) keeps the stored "
+             "value in its domain, that a rejected assignment throws and changes nothing, that an accepted one reads back converted, that mismatched reads / unknown names / duplicate "
+             "registrations throw, and (decide +kernel over the whole table) that all 285 defaults lie in their domains and ids are consistent (19 theorems). Exact correspondence on "
+             "exhaustive histories over a boundary alphabet + the factory walk (type_id, clone equality and independence, behavioural probes).",
+        note=NOTE_COMMON + "'The clone behaves identically' beyond equal parameters is a behavioural probe per factory (testing); write+read goes through C15's codec and is checked by correspondence here."),
 }
 
 PENDING = "check under construction in this session; not claimed until its quick check is green on the unchanged tree at several seeds"
